@@ -33,7 +33,7 @@ NGON = [3, 4, 5, 6, 7, 8]
 
 def axes(tier, seed):
     return dict(centres=centres(seed), radii_deg=RADII, depths=DEPTHS_Q if tier == "quick" else list(range(3, 13)),
-                polygon_vertices=NGON, polygon_circumradius_deg=[0.7, 6.0, 25.0], winding=["ccw", "cw"],
+                polygon_vertices=NGON, polygon_circumradius_deg=[0.7, 6.0, 25.0, "0.05-0.2 at depths 10-12"], winding=["ccw", "cw"],
                 input_forms=["scalar", "list", "array"], degin=[True, False])
 
 
@@ -47,6 +47,10 @@ def cases(tier, seed):
     for ci, n, R, d, w in itertools.product(range(len(centres(seed))), NGON, [0.7, 6.0, 25.0], pd, ["ccw", "cw"]):
         if R < 3 * np.degrees(hp.nside2resol(2 ** d)):
             continue
+        yield "polygon", dict(ci=ci, n=n, R=R, depth=d, winding=w)
+    # small polygons at the deepest levels (vertices a few arcmin apart)
+    small = [(0.12, 12), (0.12, 11)] if tier == "quick" else [(0.05, 12), (0.12, 12), (0.12, 11), (0.2, 11), (0.2, 10)]
+    for ci, n, (R, d), w in itertools.product(range(len(centres(seed))), NGON, small, ["ccw", "cw"]):
         yield "polygon", dict(ci=ci, n=n, R=R, depth=d, winding=w)
 
 
